@@ -122,6 +122,11 @@ func (sdItemFactory) Create(_ *SDConfig, _ log.Logger) (deployer.Connector, erro
 
 type sdItemConnector struct{}
 
+// itemDeployHard: the deployments of the current case do not watch their context while they work (set per case by
+// execForeachCase).  A deployment that cannot be interrupted is what the in-tree test deployer does and what pulling an
+// image amounts to; it still returns after a bounded time, so it stays within the environment assumption E1.
+var itemDeployHard atomic.Bool
+
 func (c *sdItemConnector) Deploy(ctx context.Context, image string) (deployer.Plugin, error) {
 	s := currentScript.Load()
 	if s == nil {
@@ -129,10 +134,18 @@ func (c *sdItemConnector) Deploy(ctx context.Context, image string) (deployer.Pl
 	}
 	b := s.get(image)
 	probing := s.probe.Load()
+	if !probing {
+		// the instant a deployment BEGINS (the "deploy" entry below is written when it is complete)
+		s.add("deploy-begin", image, "", "", nil)
+	}
 	if b.DeployDelayMs > 0 && !probing {
+		var done <-chan struct{}
+		if !itemDeployHard.Load() {
+			done = ctx.Done()
+		}
 		select {
 		case <-time.After(time.Duration(b.DeployDelayMs) * time.Millisecond):
-		case <-ctx.Done():
+		case <-done:
 			s.add("deploy-fail", image, "", "ctx", nil)
 			return nil, fmt.Errorf("deployment of %s aborted: %w", image, ctx.Err())
 		}
